@@ -30,7 +30,8 @@ func (hostile) Indices(tier string) int {
 func (hostile) Rule() string {
 	return "Per run index: a stored stream that the medium or its producer damaged — a valid seeded document (text or binary), or a " +
 		"hostile-producer document (symbol-table structs with typed nulls / wrong types / extreme numbers in every slot, $n and $0 " +
-		"symbols, huge IDs), hit by 0..3 stored-medium faults (bit flip, byte set, zeroed / dropped / duplicated / spliced block, " +
+		"symbols, huge IDs), or a stream of correctly framed binary values whose fields take extreme values (decimal and timestamp-fraction " +
+		"exponents and coefficients up to 2^64, calendar fields, symbol / field / annotation IDs, import max_id and version), hit by 0..3 stored-medium faults (bit flip, byte set, zeroed / dropped / duplicated / spliced block, " +
 		"truncation, and length / exponent / ID fields replaced by boundary values 0, 1, 13, 14, 127, 128, 2^14, 2^31-1, 2^31, 2^63, " +
 		"2^64-1 through the byte map) — plus, by enumeration, all byte strings of length <= 3 over a 24-byte alphabet of tag bytes and " +
 		"punctuation (complete once 1804 indices have run). Each stream is driven by: two seeded random call sequences (<= 200 calls over " +
@@ -460,7 +461,19 @@ func (s hostile) Run(c *Ctx, i int) {
 	text := i%2 == 0
 	var out *render.Out
 	base := "valid-doc"
-	switch r.Intn(5) {
+	pick := r.Intn(5)
+	if !text && pick >= 3 && r.Bool() {
+		pick = 5
+	}
+	switch pick {
+	case 5:
+		// correctly framed binary values whose fields take extreme values
+		b, kinds := hostileAtomsDoc(r.Fork())
+		out = &render.Out{Bytes: b, Map: make([]render.Mark, len(b))}
+		base = "extreme-atoms"
+		for _, k := range kinds {
+			c.Count("atom."+k, 1)
+		}
 	case 0, 1:
 		out = hostileDoc(r.Fork(), text)
 		base = "hostile-producer-doc"
